@@ -358,8 +358,17 @@ def _wait(chk, repo, folder):
     svar = src(snap[0].targets[0]) if snap else "?"
     unchanged = False
     deadline = False
+    # "no deadline" (end_time None) is accepted when it is chosen only by the caller passing timeout=None: the deadline test may then
+    # be guarded by `end_time is not None`
+    none_ends = [n for n in own_nodes(f.node) if isinstance(n, ast.Assign) and src(n.targets[0]) == "end_time" and isinstance(n.value, ast.Constant) and n.value.value is None]
+    guard_ok = bool(none_ends) and all(any(p and ff.norm(e, subst=False) == "timeout is None" or (not p and ff.norm(e, subst=False) == "timeout is not None") for e, p in ff.facts_at(n)) for n in none_ends)
+
+    def _unguard(e):
+        if guard_ok and isinstance(e, ast.BoolOp) and isinstance(e.op, ast.And) and len(e.values) == 2 and ff.norm(e.values[0], subst=False) == "end_time is not None":
+            return e.values[1]
+        return e
     for r in none_rets:
-        g = [ff.norm(e, subst=False) for e, p in ff.facts_at(r) if p]
+        g = [ff.norm(_unguard(e), subst=False) for e, p in ff.facts_at(r) if p]
         if any(x in (f"len(self.log) == {svar}", f"{svar} == len(self.log)") for x in g):
             unchanged = True
         if any(x in ("time.time() > end_time", "end_time < time.time()", "time.time() >= end_time") for x in g):
@@ -377,7 +386,7 @@ def _wait(chk, repo, folder):
                   f"returned value {v} is {src(d) if d is not None else all_defs}; expected self.log[-1]")
         facts = ff.facts_at(r)
         # an entry that arrived after the deadline is not handed out: the deadline test comes before the match
-        late_ok = any((not p and ff.norm(e, subst=False) in ("time.time() > end_time", "end_time < time.time()", "time.time() >= end_time"))
+        late_ok = any((not p and ff.norm(_unguard(e), subst=False) in ("time.time() > end_time", "end_time < time.time()", "time.time() >= end_time"))
                       or (p and ff.norm(e, subst=False) in ("time.time() <= end_time", "end_time >= time.time()", "time.time() < end_time")) for e, p in facts)
         chk.check(late_ok, "R5", f"{EM}:EmcyConsumer.wait | no entry after the deadline", f.loc(r),
                   f"`{src(r)}` is reached without the deadline test (conditions {[(src(e), p) for e, p in facts]}): a matching entry that arrives after the time-out is returned instead of None")
